@@ -4,8 +4,12 @@
 (*                                                                         *)
 (* A string is a sequence of TOKENS: single bytes                          *)
 (*    ";"  "="  "\""  "^" (CR)  "$" (LF)  " "  ","  "\\"  "a"  "b"         *)
-(* and, so that an injected attribute can be spelled within the length     *)
-(* bound, the word "secure" ("/" only occurs in paths).                    *)
+(* and, as multi-byte tokens, the word "secure" (so that an injected        *)
+(* attribute can be spelled within the length bound) and percent-escapes   *)
+(* of the special bytes: %3B %3b (';') %0d %0a (CR LF) %3D ('=') %22 ('"') *)
+(* %25 ('%').  Escapes are plain text everywhere EXCEPT in a path, which   *)
+(* SetPath percent-decodes (path normalisation) BEFORE neutralising it.    *)
+(* "/" only occurs in paths.                                               *)
 (*                                                                         *)
 (* RESPONSE side.  A cookie is built through the Cookie setters (Build:    *)
 (* the documented couplings SameSite=None => Secure, Partitioned => Secure *)
@@ -22,16 +26,25 @@
 (* REQUEST side.  A sequence of SetCookie(k, v) is a jar (replace the      *)
 (* first entry with that key, append otherwise); it is rendered as one     *)
 (* Cookie header and parsed by the server (ReqParse).  Claim (ReqOK): the  *)
-(* server never sees more cookies than were set; for cookie-octet keys and *)
-(* values it sees exactly the jar.                                         *)
+(* server never sees more cookies than were set; every cookie made of      *)
+(* cookie-octets (also a nameless one) arrives unchanged whatever the      *)
+(* other cookies look like; an all-octet jar is seen exactly.  The view of *)
+(* one request does not depend on any other request (the harness parses    *)
+(* into fresh AND reused header objects and over a keep-alive connection). *)
 (***************************************************************************)
 EXTENDS VerifLib, Integers
 
-Words == {"secure"}
+Escapes == {"%3B", "%3b", "%0d", "%0a", "%3D", "%22", "%25"}
+Words == {"secure"} \cup Escapes
+\* what an escape stands for once a path has been percent-decoded
+EscDec(t) == CASE t \in {"%3B", "%3b"} -> ";" [] t = "%0d" -> "^" [] t = "%0a" -> "$" [] t = "%3D" -> "="
+               [] t = "%22" -> "\"" [] t = "%25" -> "%" [] OTHER -> t
+PathDec(s) == [i \in 1..Len(s) |-> EscDec(s[i])]
 ByteToks == {";", "=", "\"", "^", "$", " ", ",", "\\", "a", "b"}
 
-IsKeyOctet(t) == t \in {"a", "b"}                 \* token characters of the alphabet
-IsValOctet(t) == t \in {"a", "b", "="}            \* RFC 6265 cookie-octet (no CTL, SP, DQUOTE, ',', ';', '\')
+IsPlain(t) == t \in {"a", "b"}
+IsKeyOctet(t) == t \in {"a", "b"} \cup Escapes     \* token characters ('%' and hex digits are tchars)
+IsValOctet(t) == t \in {"a", "b", "="} \cup Escapes \* RFC 6265 cookie-octet (no CTL, SP, DQUOTE, ',', ';', '\')
 AllOf(s, P(_)) == \A i \in 1..Len(s) : P(s[i])
 
 \* ---------------------------------------------------------------- strings
@@ -61,7 +74,8 @@ PieceKV(p) == LET i == IndexOf(p, "=", 1) IN
 \* sameSite: 0 disabled, 1 default ("SameSite"), 2 Lax, 3 Strict, 4 None
 \* expire: "none", "t1" (some date), "del" (CookieExpireDelete); maxAge: 0 = not set, < 0 = delete now
 Build(c) == [c EXCEPT !.secure = c.secure \/ c.sameSite = 4 \/ c.partitioned,
-                      !.path = IF c.partitioned THEN <<"/">> ELSE c.path]
+                      \* SetPath normalises the path, which percent-decodes it
+                      !.path = IF c.partitioned THEN <<"/">> ELSE PathDec(c.path)]
 
 Neutral(c) == [c EXCEPT !.key = San(c.key), !.value = San(c.value), !.domain = San(c.domain),
                         !.path = San(c.path)]
@@ -137,7 +151,7 @@ GotAttrs(r) ==
 \* all strings are cookie-octets (the key a non-empty token, the path starts with '/')
 RespOctets(c) == /\ c.key # <<>> /\ AllOf(c.key, IsKeyOctet) /\ AllOf(c.value, IsValOctet)
                  /\ AllOf(c.domain, IsKeyOctet)
-                 /\ (c.path = <<>> \/ (c.path[1] = "/" /\ AllOf(Tail(c.path), IsKeyOctet)))
+                 /\ (c.path = <<>> \/ (c.path[1] = "/" /\ AllOf(Tail(c.path), IsPlain)))
 
 RespSeen(c) == ParseSC(Render(Neutral(Build(c))))
 
@@ -174,10 +188,19 @@ ReqParse(s) ==
 
 NeutralJar(j) == [i \in 1..Len(j) |-> KV(San(j[i].k), San(j[i].v))]
 ReqSeen(ops) == ReqParse(ReqRender(NeutralJar(JarOf(ops, <<>>))))
-ReqOctets(ops) == \A i \in 1..Len(ops) : /\ ops[i][1] # <<>> /\ AllOf(ops[i][1], IsKeyOctet)
-                                         /\ AllOf(ops[i][2], IsValOctet)
+\* a cookie made of cookie-octets: name=value with a token name, or a NAMELESS cookie
+\* (rendered as the bare value, which then must not contain '=')
+OctetEntry(e) == \/ (e.k # <<>> /\ AllOf(e.k, IsKeyOctet) /\ AllOf(e.v, IsValOctet))
+                 \/ (e.k = <<>> /\ e.v # <<>> /\ AllOf(e.v, IsKeyOctet))
+OctetJar(j) == SelectSeq(j, OctetEntry)
+ReqOctets(ops) == LET j == JarOf(ops, <<>>) IN OctetJar(j) = j
+RECURSIVE IsSubseq(_, _)
+IsSubseq(a, b) == \/ a = <<>>
+                  \/ (b # <<>> /\ IF a[1] = b[1] THEN IsSubseq(Tail(a), Tail(b)) ELSE IsSubseq(a, Tail(b)))
 ReqOK(ops) ==
   LET j == JarOf(ops, <<>>)  seen == ReqSeen(ops) IN
   /\ Len(seen) <= Len(j)                         \* never an additional cookie
+  /\ IsSubseq(OctetJar(j), seen)                 \* every cookie-octet cookie arrives unchanged, in order,
+                                                 \* whatever the other cookies of the request look like
   /\ ReqOctets(ops) => seen = j
 =============================================================================
